@@ -21,6 +21,19 @@ Proof. intros. unfold arr_close. destruct (cx_parsed l); [apply all_ws_nl_spaces
 Lemma fuel_pos : forall txt fuel, fuel_ok txt 1 fuel -> exists f, fuel = S f.
 Proof. intros txt fuel H. unfold fuel_ok in H. destruct fuel as [|f]; [lia|]. exists f. reflexivity. Qed.
 
+Section WithPut.
+Variable put : N -> list N -> jv -> list (list N * jv) -> list (list N * jv).
+Local Notation parse_value := (parse_value_g put).
+Local Notation parse_elems := (parse_elems_g put).
+Local Notation parse_members := (parse_members_g put).
+Local Notation parse_text_fuel := (parse_text_fuel_g put).
+Local Notation parse_text := (parse_text_g put).
+
+Hypothesis Hput : forall d k v acc,
+  Forall (fun q => key_cmp k (fst q) = Gt) acc -> put d k v acc = acc ++ [(k, v)].
+
+Local Notation RT := (RTMain.RT put).
+
 Lemma rt_number : forall f d txt rest (v : jv),
   (exists c r, txt = c :: r /\ (c = 45 \/ is_digit c = true)) ->
   parse_number (txt ++ rest) = POk v rest ->
@@ -32,7 +45,7 @@ Qed.
 
 Lemma rt_all : forall v, RT v.
 Proof.
-  apply jv_ind2; unfold RT.
+  apply jv_ind2; unfold RTMain.RT.
   - (* string *)
     intros s k d ind rest fuel Hwf Hd Hf Hfuel. cbn [wfb] in Hwf.
     destruct (fuel_pos _ _ Hfuel) as [f ->].
@@ -91,7 +104,7 @@ Proof.
       { rewrite trim_ws_app by apply all_ws_arr_pad. rewrite Ew. cbn [app]. apply trim_nonws. exact Hws. }
       rewrite Et. rewrite Ew at 1. cbn [app].
       apply N.eqb_neq in H93. rewrite H93.
-      refine (elems_rt k' inner (arr_pad2 ind (e :: x)) (arr_close ind (e :: x)) rest (d + 1) x HFx Hwx
+      refine (elems_rt put Hput k' inner (arr_pad2 ind (e :: x)) (arr_close ind (e :: x)) rest (d + 1) x HFx Hwx
                  ltac:(lia) (all_ws_arr_pad2 _ _) (all_ws_arr_close _ _) e [] [] f He Hwe eq_refl _).
       unfold fuel_ok in *. lens. lia.
   - (* object *)
@@ -119,10 +132,12 @@ Proof.
                 W inner (snd p) ++ wmtail_k inner x (10 :: spaces ind ++ 125 :: rest)).
         rewrite trim_ws_app by apply all_ws_nl_spaces. apply trim_nonws. reflexivity. }
       rewrite Et. cbn [app N.eqb Pos.eqb].
-      refine (members_rt k' inner ind rest (d + 1) x HFx Hwx ltac:(lia) p [] [] f Hp Hwp eq_refl Hsort
+      refine (members_rt put Hput k' inner ind rest (d + 1) x HFx Hwx ltac:(lia) p [] [] f Hp Hwp eq_refl Hsort
                  (Forall_nil _) _).
       unfold fuel_ok in *. lens. lia.
 Qed.
+
+End WithPut.
 
 (* ---- the re-parsed tree is equal (operator==) and writes to the same text ---- *)
 Lemma canon_is_container : forall v, is_container (canon v) = is_container v.
@@ -285,21 +300,45 @@ Proof.
 Qed.
 
 (* ---- JsonParser::Parse (JsonWriter::AsString v) ---- *)
+Section WithPut.
+Variable put : N -> list N -> jv -> list (list N * jv) -> list (list N * jv).
+Local Notation parse_value := (parse_value_g put).
+Local Notation parse_elems := (parse_elems_g put).
+Local Notation parse_members := (parse_members_g put).
+Local Notation parse_text_fuel := (parse_text_fuel_g put).
+Local Notation parse_text := (parse_text_g put).
+
+Hypothesis Hput : forall d k v acc,
+  Forall (fun q => key_cmp k (fst q) = Gt) acc -> put d k v acc = acc ++ [(k, v)].
+
+
 Lemma roundtrip : forall v, wfb (N.to_nat MAX_DEPTH) v = true ->
   parse_text (W 0 v) = POk (canon v) [] /\
   jv_eqb v (canon v) = true /\
   W 0 (canon v) = W 0 v.
 Proof.
   intros v Hwf. split; [|split; [apply jv_eqb_canon|apply write_canon]].
-  unfold parse_text, parse_text_fuel.
+  unfold parse_text_g, parse_text_fuel_g.
   rewrite (cstr_nonul (W 0 v)) by (eapply nonul_write; exact Hwf).
   destruct (write_head _ v 0 Hwf) as [c [r [Ew [Hws _]]]].
   assert (Et : trim (W 0 v) = W 0 v) by (rewrite Ew; apply trim_nonws; exact Hws).
   rewrite Et. rewrite Ew at 1.
-  pose proof (rt_all v (N.to_nat MAX_DEPTH) 0 0%nat [] (parse_fuel (W 0 v)) Hwf) as H.
+  pose proof (rt_all put Hput v (N.to_nat MAX_DEPTH) 0 0%nat [] (parse_fuel (W 0 v)) Hwf) as H.
   rewrite app_nil_r in H. rewrite H.
   - reflexivity.
   - rewrite N2Nat.id. lia.
   - exact I.
   - unfold fuel_ok, parse_fuel. lia.
+Qed.
+
+End WithPut.
+
+(* the two member-store functions used by the library satisfy the hypothesis *)
+Lemma put_std_ok : forall d k v acc,
+  Forall (fun q => key_cmp k (fst q) = Gt) acc -> put_std d k v acc = acc ++ [(k, v)].
+Proof. intros d k v acc H. unfold put_std. apply obj_put_append. exact H. Qed.
+Lemma put_patch_ok : forall d k v acc,
+  Forall (fun q => key_cmp k (fst q) = Gt) acc -> put_patch d k v acc = acc ++ [(k, v)].
+Proof.
+  intros d k v acc H. unfold put_patch. destruct (d =? 2); [reflexivity|]. apply obj_put_append. exact H.
 Qed.
